@@ -20,7 +20,7 @@ RULE = ('mode A: small concurrent programs (2-4 clients x 2-5 calls over 1-3 key
         'evaluations = histories checked; distinct_nontrivial = distinct schedule traces that contained at least one '
         'preemption inside an operation (mode A) plus free runs with overlapping operation pairs (mode B)')
 DISTINCT = ('shared_object_schedules', 'schedules_with_preemption_in_op', 'free_runs_with_overlap')
-REQUIRED = ('shared_object_programs', 'shared_object_schedules_judged', 'schedules_interleaved_at_statement_level', 'statement_level_gates_passed', 'calls_joining_an_enclosing_transaction', 'schedules_with_rollbacks_of_waiting_calls', 'histories_checked', 'schedules_shared_object', 'schedules_separate_objects', 'lock_waits_observed',
+REQUIRED = ('fork_runs', 'shared_object_programs', 'shared_object_schedules_judged', 'schedules_interleaved_at_statement_level', 'statement_level_gates_passed', 'calls_joining_an_enclosing_transaction', 'schedules_with_rollbacks_of_waiting_calls', 'histories_checked', 'schedules_shared_object', 'schedules_separate_objects', 'lock_waits_observed',
             'file_backed_values', 'free_runs_threads', 'free_runs_processes', 'lru_stat_schedules', 'expired_present_keys',
             'handles_opened_during_schedules', 'partly_consumed_iterations', 'timeouts_under_commit_contention')
 ASSUMPTIONS = ('threads are interleaved at SQL-statement and value-file-operation granularity (where diskcache\'s '
@@ -745,6 +745,98 @@ def shared_object_plans(dc, sc, res, rng, label, prog, init, budget, part=(0, 1)
         sc.drop(d)
 
 
+# ------------------------------------------------ mode E: forked workers that inherited the parent's Cache object
+def forked_workers(dc, sc, res, rng, label):
+    """The parent opens a Cache, uses it, and forks workers that go on with the object they inherited (what
+    multiprocessing with the fork start method does); the parent closes its handle while they work.  Every completed
+    incr / add of every worker is there afterwards, and no worker touched the connection its parent had opened."""
+    import json as _json
+    d = sc.new()
+    probe.install()
+    probe.set_clock(None)
+    cache = dc.Cache(d, disk_min_file_size=T, timeout=60)
+    nworkers, rounds = rng.randrange(2, 4), rng.randrange(15, 40)
+    journal = rng.choice(['wal', 'wal', 'delete'])
+    if journal != 'wal':
+        cache.close()
+        cache = dc.Cache(d, disk_min_file_size=T, timeout=60, sqlite_journal_mode=journal)
+    cache.set('n', 0)
+    cache.get('n')
+    go_r, go_w = os.pipe()
+    pids = []
+    try:
+        for w in range(nworkers):
+            pid = os.fork()
+            if pid == 0:
+                code = 0
+                try:
+                    os.close(go_w)
+                    probe.PROBE.foreign_pid_uses = 0
+                    done = {'incr': 0, 'added': []}
+                    for i in range(rounds):
+                        if i == rounds // 2:
+                            os.read(go_r, 1)          # wait until the parent has closed its own handle
+                        cache.incr('n', 1, retry=True)
+                        done['incr'] += 1
+                        k = 'w%d-%d' % (w, i)
+                        if cache.add(k, stamp(w, i, i % 3 == 0), retry=True):
+                            done['added'].append(k)
+                    done['foreign'] = probe.PROBE.foreign_pid_uses
+                    with open('%s.w%d' % (d, w), 'w') as f:
+                        _json.dump(done, f)
+                except BaseException:      # noqa: BLE001
+                    import traceback
+                    traceback.print_exc()
+                    code = 3
+                os._exit(code)
+            pids.append(pid)
+        time.sleep(0.05 * rng.random())
+        cache.close()                       # the only connection this process itself had opened
+        os.write(go_w, b'x' * nworkers)
+        statuses = [os.waitpid(pid, 0)[1] for pid in pids]
+        wit = {'label': label, 'workers': nworkers, 'rounds': rounds, 'journal_mode': journal}
+        reports = []
+        for w in range(nworkers):
+            path = '%s.w%d' % (d, w)
+            if statuses[w] != 0 or not os.path.exists(path):
+                res.violation('a forked worker could not use the Cache object it inherited (status %r)' % (statuses[w],), wit)
+                return
+            with open(path) as f:
+                reports.append(_json.load(f))
+            os.unlink(path)
+        res.count('fork_runs')
+        res.count('evaluations')
+        if any(r['foreign'] for r in reports):
+            res.violation('forked workers used the SQLite connection opened by their parent for %r statement(s)' % (
+                [r['foreign'] for r in reports],), wit)
+            return
+        fresh = dc.Cache(d)
+        try:
+            total = fresh.get('n')
+            want = sum(r['incr'] for r in reports)
+            missing = [k for r in reports for k in r['added'] if k not in fresh]
+            if total != want or missing or len(fresh) != 1 + sum(len(r['added']) for r in reports):
+                res.violation('after forked workers finished, the counter reads %r (completed incr calls: %d), %d added keys are '
+                              'missing, len is %d' % (total, want, len(missing), len(fresh)), dict(wit, missing=missing[:5]))
+                return
+            problems = observe.invariant(d)
+            if problems:
+                res.violation('after forked workers finished: %r' % (problems[:3],), wit)
+        finally:
+            fresh.close()
+    finally:
+        for fd in (go_r, go_w):
+            try:
+                os.close(fd)
+            except OSError:
+                pass
+        try:
+            cache.close()
+        except Exception:      # noqa: BLE001
+            pass
+        sc.drop(d)
+
+
 def run_shard(tier, seed, shard, nshards, res):
     dc = common.use_repo()
     probe.install()
@@ -786,6 +878,8 @@ def run_shard(tier, seed, shard, nshards, res):
             mode_b(dc, sc, res, rng, seed * 100 + shard * 10 + i, topo,
                    'c05 B seed=%d shard=%d i=%d topo=%s' % (seed, shard, i, topo),
                    nclients=rng.randrange(3, 6), nops=rng.randrange(40, 90))
+        for i in range(2 if tier == 'quick' else 12):
+            forked_workers(dc, sc, res, common.rng_for(seed, 'c05e', shard, i), 'c05 E seed=%d shard=%d i=%d' % (seed, shard, i))
         for i in range(2 if tier == 'quick' else 12):
             rng = common.rng_for(seed, 'c05c', shard, i)
             commit_contention(dc, sc, res, rng, 'c05 C seed=%d shard=%d i=%d' % (seed, shard, i))
